@@ -31,6 +31,12 @@ def flegendre(x, m):
         raise ValueError('Number of Legendre polynomials must be at least 1.')
     try:
         dt = x.dtype
+        if dt.kind in 'iub':
+            #
+            # Legendre polynomials of integer abscissae are not integers,
+            # e.g. P_2(0) = -1/2.
+            #
+            dt = np.float64
     except AttributeError:
         dt = np.float64
     leg = np.ones((m, n), dtype=dt)
